@@ -60,7 +60,7 @@ func updPath(r *gen.R, malformed bool) string {
 		}
 	}
 	if malformed && r.P(25) {
-		p = []string{"", "a.", ".a", "a..b", "$[]", "a.$", "a.$[", "a.$[j]", "_id", "a.9223372036854775807", "a.-1", "a.+1", "a.$[].$[]"}[r.N(13)]
+		p = []string{"", "a.", ".a", "a..b", "$[]", "a.$", "a.$[", "a.$[j]", "_id", "a.9223372036854775807", "a.-1", "a.+1", "a.$[].$[]", "a.01", "a.-0", "a.1600000", "a.0.1500005", "b.+0.c"}[r.N(18)]
 	}
 	return p
 }
@@ -595,16 +595,21 @@ func init() {
 			doc := r.Doc(3, true, false)
 			p := r.Path()
 			if r.P(20) {
-				p = []string{"", "a.", ".a", "a..b", "a.-1", "a.+1", "a.01", "a.9223372036854775807", "a.9223372036854775808", "a.1e3", "0", "a.0.0"}[r.N(12)]
+				p = []string{"", "a.", ".a", "a..b", "a.-1", "a.+1", "a.01", "a.9223372036854775807", "a.9223372036854775808", "a.1e3", "0", "a.0.0", "a.+0", "a.-0", "a.1600000", "a.0.1500005", "b.+1.c"}[r.N(17)]
 			}
 			v := r.Value(1, true)
 			pre := r.P(30)
 			var cases []run.Case
+			roundTrip := ""
 			implPut := run.Safe(func() string {
 				d := bsonkit.Clone(&doc)
 				prev, err := bsonkit.Put(d, p, v, pre)
 				if err != nil {
 					return `{"err":"err"}`
+				}
+				// law monitor (C11): a successful Put is read back by Get at the same path
+				if got := vj.Enc(bsonkit.Get(d, p)); got != vj.Enc(v) {
+					roundTrip = got
 				}
 				return `{"ok":[` + vj.Enc(*d) + `,` + vj.Enc(prev) + `]}`
 			})
@@ -612,6 +617,9 @@ func init() {
 				Impl: implPut, Nontrivial: strings.HasPrefix(implPut, `{"ok"`), Tags: []string{"put"}})
 			if strings.HasPrefix(implPut, `{"panic"`) {
 				cases[0].Viols = []run.Violation{{Property: "C20", What: "bsonkit.Put panics", Witness: "put-panic", Req: cases[0].Req, Detail: implPut}}
+			}
+			if roundTrip != "" {
+				cases[0].Viols = append(cases[0].Viols, run.Violation{Property: "C11", What: "Put succeeded but Get at the same path does not return the value", Witness: "put-get-roundtrip", Req: cases[0].Req, Detail: roundTrip})
 			}
 			implUnset := run.Safe(func() string {
 				d := bsonkit.Clone(&doc)
